@@ -5,7 +5,7 @@
    replays (corpus/C20) and known()/probes in tools/props/c20.py.  What can be shown in the
    model is why the printer's line structure and the [wf] hypothesis are needed. *)
 From Coq Require Import List String Bool.
-From GZ Require Import C20.Model.
+From GZ Require Import C20.Model C20.Check.
 Import ListNotations.
 Open Scope string_scope.
 Open Scope list_scope.
@@ -36,3 +36,70 @@ Proof.
            tIn "get"; tP KQuo "/"; tI "a"; tI "b"; tPn KRBrace "}" ].
   eexists. vm_compute. split; reflexivity.
 Qed.
+
+(* ---- pinned wrong formatters, as the per-program check sees them (Check.prop_ok) ---- *)
+
+(* seeded change C20-2 (ast.Writer.write skips an empty "()" before the line-break decision):
+     get /e/:id // fetch one <newline> () returns (Foo)   ->   get /e/:id // fetch one returns (Foo)
+   the line comment swallows the response; the text still parses, to a route without response *)
+Definition seed2_route' (req resp : option body) : api :=
+  [ SService None "s" false
+      [ Item None "h" (Route "get" (Path [PSeg false (PId "e") []; PSeg true (PId "id") []] false) req resp) ] ].
+Definition seed2_route := seed2_route' (Some None).
+Definition seed2_src : list token :=
+  [ tIn "service"; tI "s"; tP KLBrace "{"; tPn KAtHandler "@handler"; tI "h";
+    tIn "get"; tP KQuo "/"; tI "e"; tP KQuo "/"; tP KColon ":"; tI "id";
+    tPn KLParen "("; tP KRParen ")"; tI "returns"; tP KLParen "("; tI "Foo"; tP KRParen ")"; tPn KRBrace "}" ].
+Definition seed2_out_wrong : list token :=
+  [ tIn "service"; tI "s"; tP KLBrace "{"; tPn KAtHandler "@handler"; tI "h";
+    tIn "get"; tP KQuo "/"; tI "e"; tP KQuo "/"; tP KColon ":"; tI "id"; tPn KRBrace "}" ].
+Definition seed2_case (ftoks : list token) (fast : api) (fc : list cmt) : case :=
+  mkCase None None true seed2_src [(11, "// fetch one")] (Some (seed2_route (Some (Some (Body false false "Foo"))))) OOk OOk
+         ftoks fc (Some fast) true true false [].
+
+Theorem seed2_response_swallowed_refuted :
+  agrees (seed2_case seed2_out_wrong (seed2_route' None None) [(11, "// fetch one returns (Foo)")]) = true /\
+  prop_ok (seed2_case seed2_out_wrong (seed2_route' None None) [(11, "// fetch one returns (Foo)")]) = false.
+Proof. vm_compute. split; reflexivity. Qed.
+
+(* ... while what the pinned tree prints (comment kept, "returns (Foo)" on the next line) passes *)
+Definition seed2_out_right : list token :=
+  [ tIn "service"; tI "s"; tP KLBrace "{"; tPn KAtHandler "@handler"; tI "h";
+    tIn "get"; tP KQuo "/"; tI "e"; tP KQuo "/"; tP KColon ":"; tI "id";
+    tIn "returns"; tP KLParen "("; tI "Foo"; tP KRParen ")"; tPn KRBrace "}" ].
+Example seed2_pinned_tree_passes :
+  prop_ok (seed2_case seed2_out_right (seed2_route' None (Some (Some (Body false false "Foo")))) [(11, "// fetch one")]) = true.
+Proof. vm_compute. reflexivity. Qed.
+
+(* a formatter that joins the members of a struct on one line prints the right tokens in the
+   right order, so the comparison modulo layout accepts it -- the layout comparison does not *)
+Theorem joined_lines_refuted :
+  toks_eqb (print_flat emb) (print emb) = true /\ layout_ok [] (print_flat emb) (print emb) = false.
+Proof. vm_compute. split; reflexivity. Qed.
+
+(* a line break that no comment explains, inside a construct printed on one line, is rejected too
+   ("A <break> int" would be read as two embedded fields) *)
+Definition split_field : list token :=
+  [ tIn "type"; tI "T"; tP KLBrace "{"; tIn "Foo"; tIn "A"; tIn "int"; tPn KRBrace "}" ].
+Theorem split_line_refuted :
+  toks_eqb split_field (print emb) = true /\ layout_ok [] split_field (print emb) = false.
+Proof. vm_compute. split; reflexivity. Qed.
+
+(* comments: dropping a comment that stands at the end of a printed line, inventing one, or
+   reordering two is rejected even when lost comments inside one-line constructs are tolerated *)
+Definition cm_case (out : list cmt) : case :=
+  mkCase None None true (print emb) [(3, "// after brace"); (4, "// after Foo")] (Some emb) OOk OOk
+         (print emb) out (Some emb) true true false [].
+Theorem comment_checks_refuted :
+  prop_ok (cm_case [(3, "// after brace"); (4, "// after  Foo")]) = true /\
+  prop_ok (cm_case [(3, "// after brace")]) = false /\
+  prop_ok (cm_case [(3, "// after brace"); (4, "// after Foo"); (5, "// new")]) = false /\
+  prop_ok (cm_case [(3, "// after Foo"); (4, "// after brace")]) = false.
+Proof. vm_compute. repeat split; reflexivity. Qed.
+
+(* an inline comment (between a field name and its type) may be lost unless [c_strict] *)
+Definition inl_case (strict : bool) : case :=
+  mkCase None None true (print emb) [(5, "/* c */")] (Some emb) OOk OOk (print emb) [] (Some emb) true true strict [].
+Theorem inline_comment_loss_is_the_known_finding :
+  prop_ok (inl_case false) = true /\ prop_ok (inl_case true) = false.
+Proof. vm_compute. split; reflexivity. Qed.
